@@ -53,6 +53,14 @@ Mutants(k) ==
   UNION {UNION {{[stage |-> 3, hs |-> <<>>, C |-> 0, wp |-> 0, rows |-> Mutate(k.rows, i, j, mu)]
                    : mu \in Mutations(k.rows, i, j)} : j \in 1..Len(k.rows[i])} : i \in 1..Len(k.rows)}
 
+(* double near-misses: two blocks of ONE row off in opposite directions (one taller, one shorter), so that the cells of the row  *)
+(* still add up to a rectangle of the first block's height - an aggregate cell count cannot tell them from a valid row            *)
+PairMutants(k) ==
+  UNION {UNION {UNION {IF j1 # j2 /\ k.rows[i][j2][1] > 1
+                       THEN {[stage |-> 3, hs |-> <<>>, C |-> 0, wp |-> 0, rows |-> Mutate(Mutate(k.rows, i, j1, "h+"), i, j2, "h-")]}
+                       ELSE {}
+                       : j2 \in 1..Len(k.rows[i])} : j1 \in 1..Len(k.rows[i])} : i \in 1..Len(k.rows)}
+
 RECURSIVE LayHeight(_, _), RowW(_, _)
 LayHeight(lay, i) == IF i = 0 THEN 0 ELSE LayHeight(lay, i - 1) + lay[i][1][1]
 RowW(row, j) == IF j = 0 THEN 0 ELSE RowW(row, j - 1) + row[j][2]
@@ -62,7 +70,7 @@ LayW(lay) == RowW(lay[1], Len(lay[1]))
 Init == cs = Dummy
 Next == \/ cs.stage = 0 /\ cs' \in Partials
         \/ cs.stage = 1 /\ cs' \in Tilings(cs)
-        \/ cs.stage = 2 /\ LayH(cs.rows) <= MutDim /\ LayW(cs.rows) <= MutDim /\ cs' \in Mutants(cs)
+        \/ cs.stage = 2 /\ LayH(cs.rows) <= MutDim /\ LayW(cs.rows) <= MutDim /\ cs' \in (Mutants(cs) \cup PairMutants(cs))
 Spec == Init /\ [][Next]_cs
 Done == cs.stage \in {2, 3}
 
